@@ -191,6 +191,10 @@ def run(ctx):
 def selection_by_shape(ctx, fi, fq, itB, itC, ENV, omit, depre, removal):
     """The selection rules on the normal forms of the two iterables (used when they cannot be evaluated)."""
     R = ctx.report
+    # these rules read the three-step form (candidate comprehension, dependency comprehension, omit comprehension).  A selection that
+    # is written another way and could not be evaluated either is a form the check cannot decide - not a violation
+    if not any(isinstance(s, App) and s.op == "comp:list" and s.args[1] in (App("meth:keys", (ENV,)), ENV) for s in subterms(itB)):
+        raise AnalysisError(f"{fq}: the selection of payloads / dependencies is neither evaluable on the grid nor in the three-comprehension form")
     # every regex use is fullmatch with (pattern parameter, key)
     rx = regex_calls(itB) + regex_calls(itC)
     names = {r.op for r in rx}
